@@ -40,3 +40,58 @@ Proof.
   rewrite Hd. apply peekCopy_spec; auto.
   intros k e Hin. destruct (i_ent _ _ I _ _ Hin) as (_&A&_&B). auto.
 Qed.
+
+(** completeness: from the read position, Peek succeeds when all requested bytes are buffered *)
+Lemma filter_length_lt {T} (f g : T -> bool) (l : list T) :
+  (forall x, f x = true -> g x = true) -> (exists x, In x l /\ g x = true /\ f x = false) ->
+  (length (filter f l) < length (filter g l))%nat.
+Proof.
+  intros Hfg (x&Hin&Hg&Hf). induction l as [|y l IH]; [destruct Hin|].
+  assert (Hle : forall l', (length (filter f l') <= length (filter g l'))%nat).
+  { induction l' as [|z l' IH']; simpl; auto. destruct (f z) eqn:E; [rewrite (Hfg _ E); simpl; lia|].
+    destruct (g z); simpl; lia. }
+  simpl. destruct Hin as [->|Hin].
+  - rewrite Hg, Hf. simpl. specialize (Hle l). lia.
+  - specialize (IH Hin). destruct (f y) eqn:E; [rewrite (Hfg _ E); simpl; lia|]. destruct (g y); simpl; lia.
+Qed.
+
+Lemma peekCheck_complete S q : Inv S q -> forall fuel pos rem,
+  (pos = readPos q \/ exists k e, In (k, e) (queue q) /\ k + elen e = pos) ->
+  (forall x, pos <= x < pos + rem -> cov (queue q) x) ->
+  (length (filter (fun ke => Z.leb pos (fst ke)) (queue q)) < fuel)%nat ->
+  peekCheck fuel (queue q) pos rem = true.
+Proof.
+  intros I. induction fuel as [|fuel IH]; intros pos rem Hal Hcov Hf; [lia|].
+  cbn [peekCheck]. destruct (Z.leb_spec rem 0); auto.
+  destruct (Hcov pos ltac:(lia)) as (k&e&Hin&Hk).
+  destruct (i_ent _ _ I _ _ Hin) as (Hrp&Hl&_).
+  assert (k = pos).
+  { destruct Hal as [->|(k'&e'&Hin'&Hend)]; [lia|].
+    destruct (Z.eq_dec k pos); auto. exfalso.
+    destruct (i_ent _ _ I _ _ Hin') as (_&Hl'&_).
+    assert (k = k') by (eapply (i_disj _ _ I k e k' e'); eauto; lia). subst k'.
+    assert (e = e') by (apply In_qget in Hin; apply In_qget in Hin'; try apply (i_keys _ _ I); congruence).
+    subst e'. lia. }
+  subst k. rewrite (In_qget _ _ _ (i_keys _ _ I) Hin). fold (elen e).
+  destruct (Z.leb_spec rem (elen e)); auto.
+  apply IH.
+  - right. exists pos, e. auto.
+  - intros x Hx. apply Hcov. lia.
+  - assert (Hlt : (length (filter (fun ke => Z.leb (pos + elen e) (fst ke)) (queue q)) <
+                   length (filter (fun ke => Z.leb pos (fst ke)) (queue q)))%nat).
+    { apply filter_length_lt.
+      - intros [k0 e0]. simpl. intros Hx. apply Z.leb_le in Hx. apply Z.leb_le. lia.
+      - exists (pos, e). split; auto. simpl. split; [apply Z.leb_le; lia|apply Z.leb_gt; lia]. }
+    lia.
+Qed.
+
+Lemma Peek_complete S q n : Inv S q -> 0 < n ->
+  (forall x, readPos q <= x < readPos q + n -> cov (queue q) x) ->
+  exists d, Peek q (readPos q) n = Some d.
+Proof.
+  intros I Hn Hcov. unfold Peek. destruct (Z.leb_spec n 0); [lia|].
+  rewrite (peekCheck_complete S q I); eauto.
+  assert (Hle : forall (f : Z * entry -> bool) l, (length (filter f l) <= length l)%nat).
+  { intros f l. induction l as [|y l IHl]; simpl; auto. destruct (f y); simpl; lia. }
+  specialize (Hle (fun ke => Z.leb (readPos q) (fst ke)) (queue q)). lia.
+Qed.
